@@ -40,6 +40,14 @@ class _N(ast.NodeTransformer):
             return ast.copy_location(ast.Dict(keys=[ast.Constant(value=k.arg) for k in n.keywords], values=[k.value for k in n.keywords]), n)
         return n
 
+    def visit_Attribute(self, n):
+        self.generic_visit(n)
+        # np.unique(x).size -> len(np.unique(x))   (np.unique returns a 1-D array)
+        v = n.value
+        if n.attr == "size" and isinstance(n.ctx, ast.Load) and isinstance(v, ast.Call) and isinstance(v.func, ast.Attribute) and _is_np(v.func.value) and v.func.attr == "unique":
+            return ast.copy_location(ast.Call(func=ast.Name(id="len", ctx=ast.Load()), args=[v], keywords=[]), n)
+        return n
+
     def visit_Subscript(self, n):
         self.generic_visit(n)
         # np.nonzero(m)[0] -> np.where(m)[0]
